@@ -19,10 +19,12 @@ import (
 // configurations
 
 type cfgT struct {
-	Name    string
-	Custom  bool     // custom context through app.NewCtxFunc
-	Methods []string // configured method set (reference for the 501 rule)
-	Mk      func() fiber.Config
+	Name     string
+	Custom   bool     // custom context through app.NewCtxFunc
+	Methods  []string // configured method set (reference for the 501 rule)
+	Mk       func() fiber.Config
+	Unescape bool // UnescapePath is on
+	Small    bool // small BodyLimit and/or ReadBufferSize: 413 / 431 are legitimate answers to ordinary requests
 }
 
 func defaultMethods() []string { return append([]string(nil), fiber.DefaultMethods...) }
@@ -43,8 +45,8 @@ var cfgs = []cfgT{
 	{Name: "customctx", Custom: true, Methods: defaultMethods(), Mk: func() fiber.Config { return fiber.Config{} }},
 	{Name: "methods", Methods: customMethods(), Mk: func() fiber.Config { return fiber.Config{RequestMethods: customMethods()} }},
 	{Name: "immutable", Methods: defaultMethods(), Mk: func() fiber.Config { return fiber.Config{Immutable: true} }},
-	{Name: "unescape", Methods: defaultMethods(), Mk: func() fiber.Config { return fiber.Config{UnescapePath: true} }},
-	{Name: "smallbuf", Methods: defaultMethods(), Mk: func() fiber.Config { return fiber.Config{BodyLimit: 64, ReadBufferSize: 256} }},
+	{Name: "unescape", Unescape: true, Methods: defaultMethods(), Mk: func() fiber.Config { return fiber.Config{UnescapePath: true} }},
+	{Name: "smallbuf", Small: true, Methods: defaultMethods(), Mk: func() fiber.Config { return fiber.Config{BodyLimit: 64, ReadBufferSize: 256} }},
 }
 
 func (c *cfgT) hasMethod(m string) bool {
@@ -197,7 +199,8 @@ func buildApp(c *cfgT, st *appState) *fiber.App {
 	app.All("/p/:id/*", all)
 	app.Get("/named/:x", func(ctx fiber.Ctx) error { return ctx.SendString("named") }).Name("named")
 	app.Get("/h/:helper", func(ctx fiber.Ctx) error { return helperHandler(ctx, st) })
-	app.Handler() // startup processing (route tree) before Server() is used directly
+	app.All("/g/:prog/:i/:v?", func(ctx fiber.Ctx) error { return programHandler(ctx, st) }) // family 6 (programs.go)
+	app.Handler()                                                                            // startup processing (route tree) before Server() is used directly
 	return app
 }
 
@@ -239,7 +242,9 @@ func allHandler(c fiber.Ctx, st *appState) error {
 	})
 	p("Host", func() { use(c.Host(), c.Hostname(), c.BaseURL(), c.Port(), c.Scheme(), c.Secure(), c.Protocol()) })
 	p("IP", func() { use(c.IP(), c.IPs(), c.IsFromLocal(), c.IsProxyTrusted()) })
-	p("Is", func() { use(c.Is("json"), c.Is("html"), c.Is(".xml"), c.Is("form"), c.Is("multipart/form-data"), c.Is("")) })
+	p("Is", func() {
+		use(c.Is("json"), c.Is("html"), c.Is(".xml"), c.Is("form"), c.Is("multipart/form-data"), c.Is(""))
+	})
 	p("Method", func() { use(c.Method(), c.OriginalURL(), c.Path(), c.Route().Path, c.Route().Params) })
 	p("Params", func() {
 		use(c.Params("id"), c.Params("*"), c.Params("+"), c.Params("missing", "d"), fiber.Params[int](c, "id"), fiber.Params[string](c, "*1"))
